@@ -106,6 +106,38 @@ def step_entry_agreement(chk, drv, rid):
     chk.ob(rid, "progress reporting indexes the entries by the current step", ok, up if up is not None else D, "")
 
 
+def client_floor_rule(chk, rid, drv):
+    """Allocator.clients == max(1, max client count over ALL schedule elements): the floor of one row must hold for a NON-empty schedule whose elements are all empty as well
+    (`max(gen, default=1)` only covers the empty schedule) — shared with C11 (filters can empty every element)."""
+    AL2 = drv.cls("Allocator")
+    clf = drv.methods(AL2).get("clients")
+    if clf is None:
+        raise AnchorMissing("Allocator.clients")
+    rets = [n for n in walk_body(clf) if isinstance(n, ast.Return) and n.value is not None]
+    mx_ = [n for n in walk_body(clf) if isinstance(n, ast.Call) and dotted(n.func) == "max"]
+    all_elems = floor = False
+    detail = ""
+    lp_ = [n for n in walk_body(clf) if isinstance(n, ast.For) and is_self_attr(n.iter, "schedule")]
+    if lp_ and mx_ and len(rets) == 1 and isinstance(rets[0].value, ast.Name):
+        acc = rets[0].value.id
+        lv = lp_[0].target.id if isinstance(lp_[0].target, ast.Name) else None
+        upd = [n for n in ast.walk(lp_[0]) if isinstance(n, ast.Assign) and u(n.targets[0]) == acc and isinstance(n.value, ast.Call) and dotted(n.value.func) == "max"]
+        all_elems = len(upd) == 1 and not guards(upd[0], stop=lp_[0]) and not any(isinstance(x, (ast.Break, ast.Continue, ast.Return)) for x in ast.walk(lp_[0])) \
+            and {u(a) for a in upd[0].value.args} == {acc, f"{lv}.clients"}
+        inits = [n for n in clf.body if isinstance(n, ast.Assign) and u(n.targets[0]) == acc and isinstance(n.value, ast.Constant) and isinstance(n.value.value, int)]
+        floor = len(inits) == 1 and inits[0].value.value >= 1 and clf.body.index(inits[0]) < clf.body.index(lp_[0])
+        detail = f"loop form: {acc} starts at {u(inits[0].value) if inits else '?'}"
+    elif len(rets) == 1 and isinstance(rets[0].value, ast.Call) and dotted(rets[0].value.func) == "max":
+        outer = rets[0].value
+        consts = [a for a in outer.args if isinstance(a, ast.Constant) and isinstance(a.value, int) and a.value >= 1]
+        inner = [a for a in outer.args if not isinstance(a, ast.Constant)]
+        floor = bool(consts) and len(outer.args) >= 2
+        all_elems = any("self.schedule" in u(a) and ".clients" in u(a) and not any(isinstance(x, ast.comprehension) and x.ifs for x in ast.walk(a)) and "[" not in u(a).replace("[]", "") for a in (inner or outer.args))
+        detail = f"expression form: {short(outer, 70)}" + ("" if floor else " — `default=` only applies to an EMPTY schedule; a schedule whose elements are all empty yields 0 rows")
+    chk.ob(rid, "row count == max client count over all schedule elements", all_elems, clf, detail, key="esrally/driver/driver.py:Allocator.clients:max-over-all")
+    chk.ob(rid, "row count is at least 1 for every schedule (also a non-empty one whose elements are all empty)", floor, clf, detail, key="esrally/driver/driver.py:Allocator.clients:floor")
+
+
 def allocation_totals(chk, rid, drv):
     """TaskAllocation(... global_client_index=i, total_clients=<element>.clients) in the allocation builder: the values the ramp-up slot of a client is computed from
     (shared with C05)."""
@@ -233,6 +265,9 @@ def run(chk):
     chk.ob("O2.3", "task-local client index == i - s", bd.get("client_index_in_task") is not None and rat_equal(bd["client_index_in_task"], parse_expr(f"{i} - {svar}")), tac[0], u(bd.get("client_index_in_task")))
     chk.ob("O2.3", "global client index == i", u(bd.get("global_client_index")) == i, tac[0], "")
     chk.ob("O2.3", "total clients == the element's client count", u(bd.get("total_clients")) == f"{elem}.clients", tac[0], "")
+    from rules.C05 import partition_call_rule
+
+    partition_call_rule(chk, "O2.3", drv)
     other_s = [n for n in ast.walk(SL) if isinstance(n, (ast.Assign, ast.AugAssign)) and u(n.targets[0] if isinstance(n, ast.Assign) else n.target) == svar and n not in adv]
     chk.ob("O2.3", "s not written elsewhere inside the sub-task loop", not other_s, other_s[0] if other_s else SL, "")
 
@@ -259,17 +294,7 @@ def run(chk):
         and flags[jpa[0]][1] == physd and flags[jpa[1]][1] == physd
     chk.ob("O2.7", "completing / any-completing clients recorded by physical index under the sub-task's own flag", ok, rec[0] if rec else CL, f"{flags}")
     joinpoint_lists_reset(chk, "O2.7", drv)
-    AL2 = drv.cls("Allocator")
-    clf = drv.methods(AL2).get("clients")
-    ok = False
-    if clf is not None:
-        lp_ = [n for n in walk_body(clf) if isinstance(n, ast.For) and is_self_attr(n.iter, "schedule")]
-        mx_ = [n for n in walk_body(clf) if isinstance(n, ast.Call) and dotted(n.func) == "max"]
-        if lp_ and mx_:
-            ok = any(u(a) == f"{lp_[0].target.id}.clients" for a in mx_[0].args) and not guards(mx_[0], stop=lp_[0])
-        elif mx_:
-            ok = "self.schedule" in u(mx_[0]) and ".clients" in u(mx_[0])
-    chk.ob("O2.7", "row count == max client count over all schedule elements", ok, clf if clf is not None else AL2, "")
+    client_floor_rule(chk, "O2.7", drv)
 
     # ---- O2.4 worker partition tiles ---------------------------------------------------------------------------------------------------------------------
     chk.rule("O2.4", "worker assignment: client ids come from range(c, c + k) with c += k (same k) afterwards, c starts at 0 and is written nowhere else; per-host share == "
